@@ -254,7 +254,7 @@ rule('X9', 'cli', r'(\n\s*)_ => \{\}(\n\s*\}\n\s*\}\);)', r'\1_ => {\1}\2', 1,
      'whitespace only: the empty block of the `_` arm in the completion closure is written over two lines so that a '
      'ghost proof block can be spliced into it')
 rule('D10', 'cli', r'C::command_help\(&mut \|_\| Ok\(\(\)\), command\.clone\(\), &mut writer\)',
-     'C::command_help(&mut |_p: &mut Writer<\'_, W, E>| -> (r: Result<(), E>) ensures r is Ok { Ok(()) }, command.clone(), &mut writer)', 1,
+     'C::command_help(&mut |_p: &mut Writer<\'_, W, E>| -> (r: Result<(), E>) ensures r is Ok, *final(_p) == *old(_p) { Ok(()) }, command.clone(), &mut writer)', 1,
      'closure parameter `_` named and typed; the closure contract (returns Ok, touches nothing) is spliced with it')
 
 # ---- tmpl_autocomplete (code emitted by #[derive(Command)], see tools/template.py) --------------------
@@ -311,6 +311,11 @@ rule('D19', 'tmpl_group_help', r'^([ \t]*)(\S[^\n]*)\n[ \t]*\.or_else\(\|(\w+)\|
      'Result::or_else(closure) == match on the result (definition of or_else); the closure captures &mut references',
      flags=re.M | re.S)
 
+# ---- tmpl_command_help (code emitted by #[derive(Command)] for Help) -------------------------------------
+rule('D20', 'tmpl_command_help', r'^( {16})(hole\(parent, writer\))\?;$',
+     r'\1match \2 { Ok(__v) => __v, Err(__e) => return Err(core::convert::From::from(__e)) };', 2,
+     '`?` in a function whose error type differs (E -> HelpError<E>) == match with an explicit From::from on the error '
+     '(definition of the `?` operator for Result); Verus does not connect the implicit conversion with the From impl')
 
 LENIENT = [False]   # set by the runner when it retries: a rule that does not match is skipped (and logged) instead of raised
 
